@@ -91,7 +91,7 @@ func runRobust(o opts, out *Output) {
 	r := NewRng(o.seed)
 	stats := map[string]int{}
 	for c := 0; c < o.n; c++ {
-		g := &OGen{r: r.Fork(), Wide: r.Chance(20)}
+		g := &OGen{r: r.Fork(), Wide: r.Chance(20), Mono: monoPick(r)}
 		var options []cfgpkg.Option
 		pr := newProducerRun(options...)
 		nb := 1 + r.Intn(5)
